@@ -319,7 +319,7 @@ func (h *c17ConsHooks) build(env *c17Env, cs c17Case) (byte, []byte, bool) {
 		return StateChannel, c17Wrap(m), true
 	case "Proposal":
 		p := tmproto.Proposal{Type: tmproto.ProposalType, Height: c.H, Round: c.R, PolRound: -1,
-			BlockID: tmproto.BlockID{Hash: c17Hash(5), PartSetHeader: tmproto.PartSetHeader{Total: 1, Hash: c17Hash(6)}},
+			BlockID:   tmproto.BlockID{Hash: c17Hash(5), PartSetHeader: tmproto.PartSetHeader{Total: 1, Hash: c17Hash(6)}},
 			Timestamp: time.Unix(1600000000, 0), Signature: make([]byte, 64)}
 		if v, ok := c17HeightFC(fc, c.H); ok {
 			p.Height = v
